@@ -56,6 +56,23 @@ func CheckReuse(p ReusePlan) *kit.Violation {
 	if p.Calls < 2 || p.Calls > 6 || p.BodyLen < 1 {
 		return kit.Failf("malformed plan %+v", p)
 	}
+	// net/http hands a connection back to its idle pool from its own goroutine, after the read that met the end of the
+	// body has returned: a call that follows at once can find the pool still empty and dial, drained body or not (seen
+	// once in round 10, at a load average of 80: 2 connections for 4 calls). A body that is not drained costs a connection
+	// on every call and at any pace, so a series that used more than one connection is run again with a pause between the
+	// calls (twice, 20 and 60 ms) and is reported only when it did so every time.
+	var v *kit.Violation
+	for _, pause := range []time.Duration{0, 20 * time.Millisecond, 60 * time.Millisecond} {
+		var again bool
+		if v, again = reuseOnce(p, pause); !again {
+			return v
+		}
+	}
+	return v
+}
+
+// reuseOnce: again is true when the only complaint is the number of connections.
+func reuseOnce(p ReusePlan, pause time.Duration) (_ *kit.Violation, again bool) {
 	var conns int32
 	body := strings.Repeat("r", p.BodyLen)
 	var packed []byte
@@ -105,10 +122,10 @@ func CheckReuse(p ReusePlan) *kit.Violation {
 			r.EnableConnectionReuse()
 		}
 	}); v != nil {
-		return v
+		return v, false
 	}
 	if r == nil {
-		return kit.Failf("malformed plan %+v", p)
+		return kit.Failf("malformed plan %+v", p), false
 	}
 	defer func() {
 		if own != nil {
@@ -119,6 +136,9 @@ func CheckReuse(p ReusePlan) *kit.Violation {
 		}
 	}()
 	for i := 0; i < p.Calls; i++ {
+		if i > 0 && pause > 0 {
+			time.Sleep(pause)
+		}
 		op := &rt.ClientOperation{ID: "reuse", Method: "GET", PathPattern: "/blob",
 			Params: rt.ClientRequestWriterFunc(func(req rt.ClientRequest, _ strfmt.Registry) error { return req.SetTimeout(30 * time.Second) }),
 			Reader: rt.ClientResponseReaderFunc(func(resp rt.ClientResponse, _ rt.Consumer) (interface{}, error) {
@@ -134,20 +154,20 @@ func CheckReuse(p ReusePlan) *kit.Violation {
 		var res interface{}
 		var err error
 		if v := kit.Guard("Runtime.Submit", func() { res, err = r.Submit(op) }); v != nil {
-			return v
+			return v, false
 		}
 		if err != nil {
-			return kit.Failf("SPURIOUS-ERROR: call %d of %d against the loopback server failed: %v (plan %+v)", i+1, p.Calls, err, p)
+			return kit.Failf("SPURIOUS-ERROR: call %d of %d against the loopback server failed: %v (plan %+v)", i+1, p.Calls, err, p), false
 		}
 		if code, _ := res.(int); code != http.StatusOK {
-			return kit.Failf("call %d: the reader saw status %v", i+1, res)
+			return kit.Failf("call %d: the reader saw status %v", i+1, res), false
 		}
 	}
 	if n := atomic.LoadInt32(&conns); n != 1 {
 		return kit.Failf("NOT-REUSED: connection reuse is enabled (transport built as %q) and %d sequential calls, each leaving %d unread response bytes (reader %q, gzip entity with Content-Length: %v), used %d connections: the bodies were not drained before they were closed",
-			p.Build, p.Calls, p.BodyLen, p.Reader, p.Gzip, n)
+			p.Build, p.Calls, p.BodyLen, p.Reader, p.Gzip, n), true
 	}
-	return nil
+	return nil, false
 }
 
 func copyTo(w *failingWriter, resp rt.ClientResponse) (int64, error) {
